@@ -163,13 +163,18 @@ def _n2(ctx, rep):
             if extra:
                 problems.append("builder %s depends on mutable state %s" % (b.name, extra))
         # delete method clears exactly this field
+        own_del = cs.methods.get("delete_" + fld.lstrip("_"))
         for d in deleters:
-            st = ff.direct_stores(ast.Module(body=d.node.body, type_ignores=[]), "self")
+            if d is not own_del:
+                problems.append("%s (the delete method of another cache) clears self.%s" % (d.name, fld))
+        if own_del is not None:
+            st = ff.direct_stores(ast.Module(body=own_del.node.body, type_ignores=[]), "self")
             if st != {fld}:
-                problems.append("%s clears %s" % (d.name, sorted(st)))
-            vals = [unparse(n.value) for n in own_nodes(d.node) if isinstance(n, ast.Assign)]
+                problems.append("%s clears %s instead of exactly self.%s" % (own_del.name, sorted(st), fld))
+            vals = [unparse(n.value) for n in own_nodes(own_del.node) if isinstance(n, ast.Assign)]
             if vals != ["None"]:
-                problems.append("%s stores %s" % (d.name, vals))
+                problems.append("%s stores %s" % (own_del.name, vals))
+            deleters = [own_del]
         if problems:
             rep.violation("N2", acc, con, "; ".join(problems), node=acc.node)
         else:
